@@ -327,14 +327,33 @@ class ModelWorld(engine.World):
       return vals.astype(np.float32)
     return vals.astype(np.int32)
 
-  def _base_points(self, s, n):
+  def _base_points(self, s, n, corners=0):
+    """n random points plus `corners` points whose numeric coordinates sit on
+    keypoints / range ends (piecewise-multilinear models attain their extremes
+    there)."""
     cols = []
     for j, f in enumerate(self.feats):
       fs = s.sub("col", j)
       if f["type"] == "num":
-        cols.append(self._num_values(fs, f, n))
+        col = self._num_values(fs, f, n)
+        if corners:
+          kps = np.asarray(f["keypoints"], dtype=np.float64)
+          cs = fs.sub("corner")
+          r = cs.g.random(corners)
+          ends = np.where(cs.g.random(corners) < 0.5, kps[0], kps[-1])
+          anyk = kps[cs.g.integers(0, len(kps), size=corners)]
+          if f.get("integral") or f.get("strict_range"):
+            outside = ends
+          else:
+            outside = np.where(cs.g.random(corners) < 0.5, kps[0] - 1.0,
+                               kps[-1] + 1.0)
+          extra = np.where(r < 0.55, ends, np.where(r < 0.85, anyk, outside))
+          if f.get("integral"):
+            extra = np.round(extra)
+          col = np.concatenate([col, extra.astype(np.float32)])
+        cols.append(col.astype(np.float32))
       else:
-        cols.append(self._cat_values(fs, f, n))
+        cols.append(self._cat_values(fs, f, n + corners))
     return cols
 
   def _grid(self, s, f, k_random=4):
@@ -918,8 +937,8 @@ class ModelWorld(engine.World):
 
   def _check_shape(self, ctx, ev, S):
     ps = rng_lib.Stream(ctx.run_seed, "probe", ev.get("id"))
-    n_base = 8
-    base = self._base_points(ps.sub("base"), n_base)
+    n_base = 14
+    base = self._base_points(ps.sub("base"), 8, corners=6)
     inputs, plan = self._assemble(base, n_base, ps.sub("asm"))
     with ctx.sut("call"):
       y = self._forward(inputs)
